@@ -133,8 +133,9 @@ def time_window_bounds(ctx: Ctx, rep: Report, rule: str) -> tuple[int, int]:
     defs = ctx.defs(fi)
     rets = [n for n in ast.walk(fi.node) if isinstance(n, ast.Return)
             and n.value is not None]
-    if len(rets) != 1 or not isinstance(rets[0].value, ast.Tuple) \
-            or len(rets[0].value.elts) != 2:
+    rv = ctx.reach(fi).resolve(rets[0].value, at=rets[0]) if len(rets) == 1 \
+        else None
+    if rv is None or not isinstance(rv, ast.Tuple) or len(rv.elts) != 2:
         raise AnalysisError(f"{fi.qualname}: expected one return of a pair")
 
     def atom(e: ast.AST) -> Optional[str]:
@@ -145,7 +146,7 @@ def time_window_bounds(ctx: Ctx, rep: Report, rule: str) -> tuple[int, int]:
                 and defs.only_param("time_buffer"):
             return "time_buffer"
         return None
-    forms = [lin_eval(x, defs, atom) for x in rets[0].value.elts]
+    forms = [lin_eval(x, defs, atom) for x in rv.elts]
     ns_per_min = Fraction(60 * 10**9)
     want_lo = {"min_timestamp": Fraction(1), "time_buffer": ns_per_min}
     want_hi = {"max_timestamp": Fraction(1), "time_buffer": -ns_per_min}
